@@ -1,0 +1,196 @@
+//go:build verif
+// +build verif
+
+package litonlylzma
+
+// Exported wrappers around unexported functions and types, for the /verif C17
+// correspondence check. Compiled only with -tags verif. Nothing here
+// re-implements package logic: every wrapper calls the real method on the real
+// type; VerifEnc only repeats the four-line loop body of encodeRaw so that the
+// harness can look at (and clone) the encoder state between bytes.
+
+// VerifRangeEncoder mirrors the fields of rangeEncoder.
+type VerifRangeEncoder struct {
+	Dst          []byte
+	Low          uint64
+	Width        uint32
+	PendingHead  uint8
+	PendingExtra uint64
+}
+
+func (v VerifRangeEncoder) in() rangeEncoder {
+	return rangeEncoder{dst: v.Dst, low: v.Low, width: v.Width, pendingHead: v.PendingHead, pendingExtra: v.PendingExtra}
+}
+
+func verifOut(r rangeEncoder) VerifRangeEncoder {
+	return VerifRangeEncoder{Dst: r.dst, Low: r.low, Width: r.width, PendingHead: r.pendingHead, PendingExtra: r.pendingExtra}
+}
+
+// VerifShiftLow runs rangeEncoder.shiftLow on the given state.
+func VerifShiftLow(v VerifRangeEncoder) VerifRangeEncoder {
+	r := v.in()
+	r.shiftLow()
+	return verifOut(r)
+}
+
+// VerifEncodeBit runs prob.encodeBit.
+func VerifEncodeBit(p uint16, v VerifRangeEncoder, bitValue uint32) (uint16, VerifRangeEncoder) {
+	r := v.in()
+	q := prob(p)
+	q.encodeBit(&r, bitValue)
+	return uint16(q), verifOut(r)
+}
+
+// VerifDecodeBit runs prob.decodeBit.
+func VerifDecodeBit(p uint16, src []byte, bits uint32, width uint32) (bitValue uint32, newP uint16, newSrc []byte, newBits uint32, newWidth uint32, err error) {
+	r := rangeDecoder{src: src, bits: bits, width: width}
+	q := prob(p)
+	bitValue, err = q.decodeBit(&r)
+	return bitValue, uint16(q), r.src, r.bits, r.width, err
+}
+
+func VerifEncodeRaw(dst []byte, src []byte) []byte { return encodeRaw(dst, src) }
+
+func VerifDecodeRaw(dst []byte, src []byte, size uint64) ([]byte, []byte, error) {
+	return decodeRaw(dst, src, size, ErrUnsupportedLZMAData)
+}
+
+func VerifEncodeUvarint(dst []byte, x uint64) []byte { return encodeUvarint(dst, x) }
+
+func VerifDecodeUvarint(src []byte) ([]byte, uint64, bool) { return decodeUvarint(src) }
+
+// VerifErrClass maps the package's errors to stable words.
+func VerifErrClass(err error) string {
+	switch err {
+	case nil:
+		return "ok"
+	case ErrUnsupportedLZMAData:
+		return "unsupported-lzma"
+	case ErrUnsupportedXzData:
+		return "unsupported-xz"
+	case errInvalidLZMAData:
+		return "invalid-lzma"
+	case errInvalidXzData:
+		return "invalid-xz"
+	case errUnexpectedEOF:
+		return "eof"
+	case errUnsupportedFileFormat:
+		return "unsupported-format"
+	}
+	return "other:" + err.Error()
+}
+
+// VerifEnc is the state of encodeRaw between two source bytes.
+type VerifEnc struct {
+	rEnc     rangeEncoder
+	posProbs [1 << pb]prob
+	litProbs [1 << (lc + lp)]byteProbs
+	pos      uint32
+	prev     byte
+
+	// Statistics, updated by PutByte (observations only).
+	MaxPendingExtra uint64 // largest pendingExtra seen after a byte
+	Carries         int    // shiftLow calls that took the carry branch (low >= 1<<32), estimated per byte
+	CarryThrough    uint64 // largest pendingExtra that a carry propagated through
+	NoCarryThrough  uint64 // largest pendingExtra flushed as 0xFF bytes without a carry
+	CarryRunEvents  int    // carries that found pendingExtra > 0
+	FlushRunEvents  int    // no-carry flushes that found pendingExtra > 0
+	MinProb         uint16
+	MaxProb         uint16
+}
+
+func VerifNewEnc() *VerifEnc {
+	v := &VerifEnc{MinProb: 1 << (probBits - 1), MaxProb: 1 << (probBits - 1)}
+	v.rEnc = rangeEncoder{width: 0xFFFF_FFFF}
+	setProbsToOneHalf(v.posProbs[:])
+	for ij := range v.litProbs {
+		setProbsToOneHalf(v.litProbs[ij][:])
+	}
+	return v
+}
+
+func (v *VerifEnc) Clone() *VerifEnc {
+	w := *v
+	w.rEnc.dst = append([]byte(nil), v.rEnc.dst...)
+	return &w
+}
+
+func (v *VerifEnc) State() VerifRangeEncoder { return verifOut(v.rEnc) }
+
+func (v *VerifEnc) observe(p prob) {
+	if uint16(p) < v.MinProb {
+		v.MinProb = uint16(p)
+	}
+	if uint16(p) > v.MaxProb {
+		v.MaxProb = uint16(p)
+	}
+}
+
+// encodeBitObserved is prob.encodeBit plus bookkeeping of which shiftLow
+// branch was about to be taken (read-only inspection of the state before).
+func (v *VerifEnc) encodeBitObserved(p *prob, bitValue uint32) {
+	// Predict whether encodeBit will call shiftLow: same test as the code,
+	// evaluated on a copy.
+	q := *p
+	c := v.rEnc
+	c.dst = nil
+	before := c.pendingExtra
+	threshold := (c.width >> probBits) * uint32(q)
+	w, low := c.width, c.low
+	if bitValue == 0 {
+		w = threshold
+	} else {
+		low += uint64(threshold)
+		w -= threshold
+	}
+	if w < (1 << 24) {
+		if low >= 0x1_0000_0000 {
+			v.Carries++
+			if before > 0 {
+				v.CarryRunEvents++
+			}
+			if before > v.CarryThrough {
+				v.CarryThrough = before
+			}
+		} else if low < 0x0_FF00_0000 {
+			if before > 0 {
+				v.FlushRunEvents++
+			}
+			if before > v.NoCarryThrough {
+				v.NoCarryThrough = before
+			}
+		}
+	}
+	p.encodeBit(&v.rEnc, bitValue)
+	v.observe(*p)
+	if v.rEnc.pendingExtra > v.MaxPendingExtra {
+		v.MaxPendingExtra = v.rEnc.pendingExtra
+	}
+}
+
+// PutByte is the loop body of encodeRaw.
+func (v *VerifEnc) PutByte(curr byte) {
+	v.encodeBitObserved(&v.posProbs[v.pos&pbMask], 0)
+	i := (v.pos & lpMask) << lc
+	j := uint32(v.prev) >> (8 - lc)
+	bp := &v.litProbs[i|j]
+	b := uint32(curr)
+	index := uint32(1)
+	for k := 7; k >= 0; k-- {
+		bitValue := (b >> uint(k)) & 1
+		v.encodeBitObserved(&bp[index], bitValue)
+		index = index<<1 | bitValue
+	}
+	v.pos++
+	v.prev = curr
+}
+
+// Finish flushes a copy of the encoder (5 shiftLow calls, as encodeRaw does)
+// and returns the bytes.
+func (v *VerifEnc) Finish() []byte {
+	c := v.Clone()
+	for i := 0; i < 5; i++ {
+		c.rEnc.shiftLow()
+	}
+	return c.rEnc.dst
+}
